@@ -3,7 +3,11 @@ stand-in object that supplies _dirs_to_make, the old cache's created_norm_cased_
 to make a chain of directories - some of which exist, some of which are regular files (old outputs or foreign) -
 with or without an OSError injected at the k-th os.mkdir.  Outcome (returns / raises OSError), the resulting tree and
 the undo log must equal the model's.  On the real side the property is judged as well: after a failure no directory
-exists that was not there before."""
+exists that was not there before.
+
+With `failAny` in the case (C14) the fault strikes the k-th mutating call of either kind - an os.mkdir or the os.rename
+with which back_up_and_remove moves an old output out of a directory position - and the model is FB.MakeDirsF
+(makeDirsF_error, makeDirsF_undoable, C14_makeDirs_fault_rollback, loop_none)."""
 import errno
 import importlib
 import os
@@ -70,14 +74,28 @@ def real_run(case):
     proxy = type(os)('os_mkdir_fault')
     proxy.__dict__.update({k: getattr(os, k) for k in dir(os) if not k.startswith('__')})
 
+    fail_any = case.get('failAny')
+
     def mkdir(p, *a, **k):
         i = calls[0]
         calls[0] += 1
-        if case.get('failAt') is not None and i == case['failAt']:
+        if (case.get('failAt') is not None and i == case['failAt']) or (fail_any is not None and i == fail_any):
             raise OSError(errno.EIO, 'injected')
         return os.mkdir(p, *a, **k)
     proxy.mkdir = mkdir
+
+    def rename(a_, b_, *a, **k):
+        i = calls[0]
+        calls[0] += 1
+        if i == fail_any:
+            raise OSError(errno.EIO, 'injected')
+        return os.rename(a_, b_, *a, **k)
+    bkproxy = type(os)('os_rename_fault')
+    bkproxy.__dict__.update({k: getattr(os, k) for k in dir(os) if not k.startswith('__')})
+    bkproxy.rename = rename
+    bkproxy.replace = rename
     saved_os = mod.os
+    saved_bkos = bkmod.os
     import logging
     was = logging.root.manager.disable
     logging.disable(logging.CRITICAL)
@@ -99,6 +117,8 @@ def real_run(case):
                 _old_cache=types.SimpleNamespace(created_norm_cased_file=lambda f: f in old),
                 _backups=backups)
             mod.os = proxy
+            if fail_any is not None:
+                bkmod.os = bkproxy
             try:
                 fb.FileBuilder._make_dirs(fake, ab(case['dirs'][-1]))
                 outcome = 'ok'
@@ -106,22 +126,32 @@ def real_run(case):
                 outcome = 'OSError'
             finally:
                 mod.os = saved_os
+                bkmod.os = saved_bkos
             saved = []
             for orig, bak in backups._backups:
                 with open(bak) as fh:
                     saved.append([rel(orig), fh.read(), os.stat(bak).st_mtime_ns - BASE_NS])
             after = tree()
-        return {'outcome': outcome, 'tree': after, 'saved': saved, 'before': before}
+        return {'outcome': outcome, 'tree': after, 'saved': saved, 'before': before, 'calls': calls[0]}
     finally:
         mod.os = saved_os
+        bkmod.os = saved_bkos
         logging.disable(was)
         shutil.rmtree(root, ignore_errors=True)
 
 
-def run(tier, rep, salt=0):
+def run(tier, rep, salt=0, faults=False):
     n = 400 if tier == 'quick' else 20000
     rng = random.Random(core.seed() * 67867967 + 10 + salt)
     cases = [gen_case(rng) for _ in range(n)]
+    if faults:
+        # the fault at every mutating call (mkdir or rename) of the fault-free run of each tree, and once beyond
+        for c in cases:
+            c.pop('failAt', None)
+        base = model.run_cases([dict(c, failAny=10 ** 6) for c in cases])
+        cases = [dict(c, failAny=k) for c, b in zip(cases, base) for k in range(b['calls'] + 1)]
+        if tier == 'quick':
+            cases = rng.sample(cases, min(len(cases), 700))
     outs = model.run_cases(cases)
     problems = []
     for c, mo in zip(cases, outs):
@@ -130,10 +160,11 @@ def run(tier, rep, salt=0):
         except Exception as e:      # the method can no longer be driven this way
             problems.append({'what': '_make_dirs cannot be driven as FB.MakeDirs describes it: %s: %s' % (type(e).__name__, str(e)[:200]), 'case': c})
             break
-        rep.count('makedirs_calls')
-        rep.count('makedirs_' + ro['outcome'] + ('_injected' if c.get('failAt') is not None else ''))
+        pre = 'makedirs_' if not faults else 'makedirs_anyfault_'
+        rep.count(pre + ('calls' if not faults else 'runs'))
+        rep.count(pre + ro['outcome'] + ('_injected' if c.get('failAt') is not None else ''))
         if ro['saved']:
-            rep.count('makedirs_moved_a_file_aside')
+            rep.count(pre + 'moved_a_file_aside')
         if ro['outcome'] == 'OSError':
             # the property itself, on the real code: no new directory survives the failure
             b = {x[0]: x for x in ro['before']}
@@ -147,6 +178,9 @@ def run(tier, rep, salt=0):
             problems.append({'what': '_make_dirs removed directories that existed before the call', 'oracle': True, 'foreign': True, 'lost': lost, 'case': c})
         got = {'outcome': ro['outcome'], 'tree': ro['tree'], 'saved': ro['saved']}
         exp = {'outcome': mo['outcome'], 'tree': mo['tree'], 'saved': mo['saved']}
+        if faults and ro['outcome'] == 'ok':
+            got['calls'] = ro['calls']
+            exp['calls'] = mo.get('calls')
         if got != exp:
-            problems.append({'what': 'FileBuilder._make_dirs and FB.MakeDirs.makeDirs differ', 'case': c, 'real': got, 'model': exp})
+            problems.append({'what': 'FileBuilder._make_dirs and FB.MakeDirs%s.makeDirs differ' % ('F' if faults else ''), 'case': c, 'real': got, 'model': exp})
     return problems
